@@ -105,6 +105,9 @@ class QueryWorld:
     def on_handler(self, ip, r, handler):
         pass
 
+    def generic_elements(self, ip, it, node):
+        return None
+
     def resolve_name(self, ip, name, node):
         if name in ("chain", "Counter", "combinations"):
             return Builtin(name)
